@@ -31,6 +31,7 @@
 #endif
 
 #include "../types/xsimd_all_registers.hpp"
+#include "./xsimd_verif_hooks.hpp"
 
 namespace xsimd
 {
@@ -128,6 +129,11 @@ namespace xsimd
                 {
                     uint32_t xcr0;
 
+#ifdef XSIMD_VERIF_HOOKS
+                    if (::xsimd_verif::source().xgetbv)
+                        return (uint32_t)::xsimd_verif::source().xgetbv();
+#endif
+
 #if defined(_MSC_VER) && _MSC_VER >= 1400
 
                     xcr0 = (uint32_t)_xgetbv(0);
@@ -154,6 +160,13 @@ namespace xsimd
 
                 auto get_cpuid = [](int reg[4], int level, int count = 0) noexcept
                 {
+#ifdef XSIMD_VERIF_HOOKS
+                    if (::xsimd_verif::source().cpuid)
+                    {
+                        ::xsimd_verif::source().cpuid(reg, level, count);
+                        return;
+                    }
+#endif
 
 #if defined(_MSC_VER)
                     __cpuidex(reg, level, count);
@@ -256,6 +269,10 @@ namespace xsimd
 
     XSIMD_INLINE detail::supported_arch available_architectures() noexcept
     {
+#ifdef XSIMD_VERIF_HOOKS
+        if (::xsimd_verif::source().bypass_cache)
+            return detail::supported_arch();
+#endif
         static detail::supported_arch supported;
         return supported;
     }
